@@ -102,12 +102,28 @@ def discharge_idxs(target, mode, timeout, tier, idxs):
     prog = _G['prog']
     ex, spec, con = get_ex(target, mode, tier)
     obls = [ex.obls[i] for i in idxs]
-    res = verify.discharge(obls, timeout, hints=_G.get('hints'))
+    # one undecided instance makes its family undecided: the other instances of that family are not attempted in this
+    # pass (the retry pass takes one instance per family, and all of them if that one is discharged after all)
+    res = []
+    undecided = set()
+    for o in obls:
+        fam = stable(o.name)
+        if fam in undecided:
+            r = verify.Result(o)
+            r.status = 'unknown'
+            r.solver = 'skipped'
+            r.reason = 'another instance of this obligation family is already undecided'
+            res.append(r)
+            continue
+        r = verify.discharge([o], timeout, hints=_G.get('hints'))[0]
+        if r.status != 'unsat':
+            undecided.add(fam)
+        res.append(r)
     res_out = []
-    for o, r in zip(obls, res):
+    for ix, o, r in zip(idxs, obls, res):
         d = {'name': r.name, 'stable': stable(r.name), 'tags': r.tags, 'status': r.status, 'time': round(r.time, 4),
              'solver': r.solver, 'where': r.where, 'kind': r.kind, 'fn': prog.short(r.fn), 'mode': mode,
-             'reason': r.reason}
+             'reason': r.reason, 'idx': ix}
         if r.status != 'unsat':
             d['model'] = r.model
             d['probes'] = verify.probe_model(ex, spec, con, o) if r.status == 'sat' else {}
@@ -206,18 +222,19 @@ def phase2(job):
 
 def phase3(job):
     """Retry one obligation (by name) with a longer time limit."""
-    target, mode, timeout, tier, name = job
+    target, mode, timeout, tier, name, ix = job
     import verify
     prog = _G['prog']
     try:
         ex, spec, con = get_ex(target, mode, tier)
-        obls = [o for o in ex.obls if o.name == name][:1]
+        # obligations are identified by their position (several paths give obligations of the same name)
+        obls = [ex.obls[ix]] if 0 <= ix < len(ex.obls) and ex.obls[ix].name == name else []
         res = verify.discharge(obls, timeout, hints=_G.get('hints'))
         out = []
         for o, r in zip(obls, res):
             out.append({'name': r.name, 'stable': stable(r.name), 'tags': r.tags, 'status': r.status, 'time': round(r.time, 4),
                         'solver': r.solver + '+retry', 'where': r.where, 'kind': r.kind, 'fn': prog.short(r.fn), 'mode': mode,
-                        'reason': r.reason, 'model': r.model, 'probes': {}})
+                        'reason': r.reason, 'model': r.model, 'probes': {}, 'idx': ix})
         return {'target': target, 'mode': mode, 'results': out, 'error': None}
     except Exception as e:
         return {'target': target, 'mode': mode, 'results': [], 'error': str(e)}
@@ -334,14 +351,14 @@ def main():
         for o2 in outs2:
             for r in o2['results']:
                 if r['status'] == 'unknown' and r['stable'] in base_names:
-                    retry.append((o2['target'], o2['mode'], r['name']))
+                    retry.append((o2['target'], o2['mode'], r['name'], r.get('idx', -1)))
         if retry:
             # few at a time: the first pass ran with every core busy, which is what made these time out.  One instance
             # per obligation family first; the other instances of a family only if that one is discharged (a family
             # with one instance that still fails is a violation already)
             fam = {}
-            for (t, m, nm) in retry:
-                fam.setdefault(stable(nm), []).append((t, m, timeout * 3, a.tier, nm))
+            for (t, m, nm, ix) in retry:
+                fam.setdefault(stable(nm), []).append((t, m, timeout * 3, a.tier, nm, ix))
             wave1 = [v[0] for v in fam.values()]
             outs3 = []
             with ctx.Pool(6) as pool3:
@@ -357,10 +374,10 @@ def main():
             fixed = {}
             for o3 in outs3:
                 for r in o3['results']:
-                    fixed[(o3['target'], o3['mode'], r['name'])] = r
+                    fixed[(o3['target'], o3['mode'], r['name'], r.get('idx', -1))] = r
             for o2 in outs2:
                 for i, r in enumerate(o2['results']):
-                    k3 = (o2['target'], o2['mode'], r['name'])
+                    k3 = (o2['target'], o2['mode'], r['name'], r.get('idx', -2))
                     if k3 in fixed and fixed[k3]['status'] == 'unsat':
                         o2['results'][i] = fixed[k3]
     engine_errors = [o for o in outs if o['error']]
@@ -473,7 +490,7 @@ def main():
                                'reason': 'obligation of the committed baseline is no longer generated (contract clause or function binding lost)',
                                'where': '', 'model': None, 'probes': {}})
     for s, rs in sorted(failed.items()):
-        bad = [x for x in rs if x['status'] != 'unsat'][0]
+        bad = sorted([x for x in rs if x['status'] != 'unsat'], key=lambda x: (x.get('solver') == 'skipped', x['status'] != 'sat'))[0]
         is_known = any(f['obligation'] == s for f in kf)
         if base and s not in base and not a.write_baseline and not is_known:
             # never passed on the committed baseline: a hole in the machinery, not a verdict about the code
